@@ -147,7 +147,7 @@ func init() {
 }
 
 func c04Records(c *Ctx) {
-	per := c.N(300, 20000)
+	per := c.N(1500, 100000)
 	idx := int64(0)
 	for n := 3; n <= 12; n++ {
 		for j := 0; j < per; j++ {
@@ -172,7 +172,7 @@ func c04Records(c *Ctx) {
 }
 
 func c04Files(c *Ctx) {
-	n := c.N(200, 5000)
+	n := c.N(1000, 50000)
 	for i := 0; i < n; i++ {
 		c.Case(int64(i), func(k *K) {
 			r := k.Rand()
@@ -233,7 +233,7 @@ func c04Refuse(c *Ctx) {
 
 // c04Long: lines longer than the usual I/O buffers (long names, many blocks).
 func c04Long(c *Ctx) {
-	n := c.N(120, 3000)
+	n := c.N(150, 6000)
 	for i := 0; i < n; i++ {
 		c.Case(int64(i), func(k *K) {
 			r := k.Rand()
